@@ -161,6 +161,7 @@ func init() {
 			if len(e.Payload) > 2 && len(e.Payload) < 30 {
 				x.Sample(map[string]any{"payload": e.Payload, "literals": e.Lits})
 			}
+			x.Eval(len(e.Order) - 1) // one evaluation per literal (RunAll counted the program once)
 			for i, enc := range e.Order {
 				if nt {
 					x.Nontrivial(enc + "\x00" + e.Payload)
